@@ -143,6 +143,12 @@ def one_storage(ctx, hid, seed, ncor):
     w = hist.World(ctx, hid, rng, max_groups=3, max_per_group=4)
     out = []
     try:
+        # the same content twice, the copy several directory levels deep and after the original in walk order: restore
+        # writes the copy when it meets the original and has to create the copy's ancestors itself
+        w.next_cid += 1
+        w.write(os.path.join(w.items[0], 'aa-original'), w.next_cid, 5000)
+        os.makedirs(os.path.join(w.items[0], 'zz', 'deep', 'er'), exist_ok=True)
+        w.write(os.path.join(w.items[0], 'zz', 'deep', 'er', 'copy'), w.next_cid, 5000)
         for _ in range(rng.randint(4, 10)):
             w.edit()
         for k in range(rng.randint(2, 4)):
@@ -171,7 +177,8 @@ def one_storage(ctx, hid, seed, ncor):
             before = {p: hashlib.sha1(open(os.path.join(d, p2), 'rb').read()).hexdigest() for d, _, fs in os.walk(croot) for p2 in fs for p in [os.path.join(d, p2)]}
             rdir = os.path.join(w.base, 'restored%d' % c)
             around = {d: set(os.listdir(d)) for d in (w.base, os.path.dirname(w.base))}
-            r, tree = rc.real_restore(ctx, w, tdir, rdir)
+            modes = []
+            r, tree = rc.real_restore(ctx, w, tdir, rdir, modes=modes)
             after = {p: hashlib.sha1(open(os.path.join(d, p2), 'rb').read()).hexdigest() for d, _, fs in os.walk(croot) for p2 in fs for p in [os.path.join(d, p2)]}
             escaped = [p for p in ('/abs-escape', os.path.join(w.base, 'escape')) if os.path.lexists(p)]
             for d, had in around.items():
@@ -181,7 +188,7 @@ def one_storage(ctx, hid, seed, ncor):
             escaped = sorted(set(escaped))
             req = rc.model_request(group, names.index(tname) if tname in names else 10**6, contents)
             out.append({'kind': kind, 'history': hid, 'request': req, 'rc': r.rc, 'errors': r.errors()[:6], 'tree': tree,
-                        'storage_modified': before != after, 'escaped': escaped, 'contents': contents,
+                        'storage_modified': before != after, 'escaped': escaped, 'contents': contents, 'not_owner_only': modes[:4],
                         'target_manifest': next((b['manifest'] for b in group if b['name'] == tname), None)})
             shutil.rmtree(croot, ignore_errors=True)
             shutil.rmtree(rdir, ignore_errors=True)
@@ -243,6 +250,8 @@ def oracle(case):
         return 'restore modified the backup storage'
     if case['escaped']:
         return 'restore created an entry outside the restore directory: %s' % case['escaped']
+    if case.get('not_owner_only'):
+        return 'restore created entries that are not owner-only before their recorded mode is applied (call, path, requested mode): %s' % case['not_owner_only']
     if case['rc'] == 0:
         recs = case['target_manifest']
         if recs is None:
